@@ -122,6 +122,9 @@ def targets(tier='quick'):
         T.append(Target('pt/step[add_correlation_time=%s]' % ('None' if tn_ else 'tau'), 'backends.pt_tempo_backend.PtTempoBackend.compute_step',
                         c01.scen_pt_step(tn_), c01.post_pt_step, c01.pt_registry(), PROP, replay=rp))
     T.append(c01.lemma_same_cells())
+    # ... and both rotate between the system basis and the eigenbasis of the coupling operator in the same way (contracts of C05)
+    from . import c05
+    T += c05.rotation_targets(PROP, rp)
     return T
 
 
